@@ -114,6 +114,8 @@ class _Collector:
             self.classes[c] += n
         for h in out.get('nontrivial_keys', ()):
             self.nontrivial.add(h)
+        if (out.get('nontrivial_keys') or not self.samples) and len(self.samples) < 2:
+            self.samples.append(sub.describe(case))
         if out.get('nontrivial'):
             h = common.case_hash(case)
             if h not in self.nontrivial:
